@@ -4,7 +4,7 @@
 PROPS = {
     "C01": dict(tier_a=[], tier_b="bounded.c01"),
     "C02": dict(tier_a=["contracts.null_ordering"], tier_b=None),
-    "C04": dict(tier_a=[], regtrans=True, tier_b="bounded.c04"),
+    "C04": dict(tier_a=["contracts.generator_fmt"], regtrans=True, tier_b="bounded.c04"),
     "C05": dict(tier_a=["contracts.parser_cursor", "contracts.errors_funnel", "contracts.tokenizer"], projection=True, tier_b="bounded.c05"),
     "C06": dict(tier_a=["contracts.simplify_tables"], tier_b="bounded.c06"),
     "C07": dict(tier_a=["contracts.generator_fmt"], regtrans=True, tier_b="bounded.c07"),
